@@ -4,6 +4,7 @@ mod c02;
 mod c18;
 mod c19;
 mod c20;
+mod conc;
 mod docs;
 mod evalreq;
 mod merge;
@@ -45,6 +46,8 @@ fn main() {
         "c18" => c18::run(&out, seed, thorough, &side),
         "c19" => c19::run(&out, seed, thorough, &side),
         "c20" => c20::run(&out, seed, thorough, &side),
+        "conc" => conc::run(&out, seed, thorough, &side),
+        "concchild" => conc::child(),
         "docs" => docs::run(&out, seed, thorough, &side),
         "world" => match &replay {
             Some(file) => world::run_replay(&out, file, prop.as_deref(), kind.as_deref()),
